@@ -45,7 +45,8 @@ RULE = {
     'thorough': _COMMON +
                 'Catalogue: every configuration of mc.catalog.configs("thorough"), every structural block of each hierarchy. '
                 'Netlists: n <= 2 as in quick with the alias variant of every i = 2 shape; n = 3: every type sequence over '
-                '{Not,And2,Reg,Two} x every (i,o) with i in {1,2}, o in {0,1,2}, plus sequences with exactly one Mux2 and two of '
+                '{Not,And2,Reg,Two} x every (i,o) with i in {1,2}, o in {0,1,2} (for (i,o) = (2,2) only sequences with at most one of '
+                '{And2,Two}), plus sequences with exactly one Mux2 and two of '
                 '{Not,Reg} x (i,o) in {(1,1),(2,1),(1,2)}; n = 4: sequences over {Not,Reg,And2} with at most one And2 and at most '
                 'two Reg, (i,o) = (1,1); all wirings in each case.',
 }
@@ -70,7 +71,7 @@ ASSUMPTIONS = [
 BOUNDS = {
     'quick': 'catalogue at the quick grids (widths <= 2, arities <= 4); netlists n <= 2 complete (i,o <= 2), n = 3 on the stated '
              'sub-space; 2 set-iteration orders; guard %g s' % GUARD_S,
-    'thorough': 'catalogue at the thorough grids (widths <= 3); netlists n <= 2 complete, n = 3 without Mux2 complete for i >= 1, '
+    'thorough': 'catalogue at the thorough grids (widths <= 3); netlists n <= 2 complete, n = 3 without Mux2 complete for i >= 1 except (i,o) = (2,2), '
                 'n = 3 with one Mux2 and n = 4 (<= 2 Reg, <= 1 And2) on the stated sub-spaces; 2 set-iteration orders; guard %g s' % GUARD_S,
 }
 
@@ -175,8 +176,9 @@ def netlist_shapes(tier):
                     out.append((seq,) + io)
     else:
         for seq in itertools.product('NART', repeat=3):
+            few = sum(seq.count(x) for x in 'AT') <= 1
             for i, o in allio:
-                if i >= 1:
+                if i >= 1 and ((i, o) != (2, 2) or few):
                     out.append((seq, i, o))
         for seq in itertools.product('NRM', repeat=3):
             if seq.count('M') == 1:
@@ -475,7 +477,12 @@ def build_catalog(source, cfg):
 
 def _run_catalog(desc, acc):
     cfgs = catalog.configs(desc['tier'], small=False)[desc['k']::desc['of']]
-    for source, cfg in cfgs:
+    timeouts = 0
+    for n, (source, cfg) in enumerate(cfgs):
+        if timeouts >= KEEP_PER_SIG:
+            acc.res['capped'] = True
+            acc.res['abandoned_after_timeouts'] = len(cfgs) - n
+            break
         acc.res['configs'] += 1
         try:
             hw = build_catalog(source, cfg)
@@ -509,6 +516,8 @@ def _run_catalog(desc, acc):
                     seen.add(sig)
                     acc.add(sig, {'kind': 'catalog', 'source': source, 'cfg': cfg, 'path': list(path), 'order': order,
                                   'design': catalog.name(source, cfg), 'findings': summarize(ex['findings'])[:8]})
+                    if f['clause'] == 'timeout':
+                        timeouts += 1
             if nontrivial:
                 acc.res['distinct_nontrivial'] += 1
 
